@@ -735,7 +735,23 @@ impl Conjunction for BoundedVariantRange {
     type Output = Self;
 
     fn conjunction(self, rhs: Self) -> Self::Output {
-        match NaturalRange::by_bound_with(self.into(), rhs.into(), ops::conjunction) {
+        use Variance::Variant;
+
+        match NaturalRange::by_lower_and_upper_with(
+            self.into(),
+            rhs.into(),
+            |LowerUpper { lower, upper }| LowerUpper {
+                // An unbounded lower bound is zero (the additive identity) and so, unlike an
+                // unbounded upper bound, it must not absorb the other lower bound.
+                lower: match (lower.lhs.into_bound(), lower.rhs.into_bound()) {
+                    (Variant(Unbounded), bound) | (bound, Variant(Unbounded)) => bound,
+                    (lhs, rhs) => ops::conjunction(lhs, rhs),
+                }
+                .into_lower(),
+                upper: ops::conjunction(upper.lhs.into_bound(), upper.rhs.into_bound())
+                    .into_upper(),
+            },
+        ) {
             Variance::Variant(Bounded(range)) => range,
             _ => unreachable!(),
         }
